@@ -643,6 +643,13 @@ func (w *world) selectConn(op *Op) *fsc {
 		if f, ok := w.standin[key]; ok && w.slots[f].alive {
 			sc = w.slots[f].conn
 		}
+	case 7: // the channel that carries the outstanding call Idx (negative: counted from the most recent)
+		if n := len(w.calls); n > 0 {
+			c := w.calls[((op.Idx%n)+n)%n]
+			if c.slot >= 0 && c.slot < len(w.slots) && w.slots[c.slot].alive {
+				sc = w.slots[c.slot].conn
+			}
+		}
 	case 1:
 		sc = pick(repl)
 	case 2:
